@@ -11,6 +11,7 @@ import (
 	"strings"
 	"sync"
 
+	"github.com/bufbuild/protocompile/linker"
 	"github.com/pentops/j5/internal/j5s/protobuild"
 	"github.com/pentops/j5/internal/j5s/protoprint"
 	"github.com/pentops/j5/internal/zzverif/simrt"
@@ -51,8 +52,9 @@ type ExecCfg struct {
 	PermSites     bool     `json:"perm_sites"`
 	PermListings  bool     `json:"perm_listings"`
 	SharedDeps    bool     `json:"shared_deps"`
-	ListGenerated bool `json:"list_generated,omitempty"` // the file source also lists (and serves) the committed *.j5s.proto outputs next to their sources
+	ListGenerated bool     `json:"list_generated,omitempty"`   // the file source also lists (and serves) the committed *.j5s.proto outputs next to their sources
 	RealReader    bool     `json:"real_file_reader,omitempty"` // real protobuild.fileReader over an in-memory fs.FS (no read faults)
+	OutHandling   uint64   `json:"out_handling,omitempty"`     // 0: returned files are serialised and printed once, in order. Otherwise seeded: order, print-before-serialise (bit 0), everything twice (bit 1), re-examine held results at the end (bit 2)
 	Ops           []Op     `json:"ops"`
 	MaskSites     []string `json:"mask_sites,omitempty"`     // sites forced to identity order
 	MaskDecisions []string `json:"mask_decisions,omitempty"` // individual decisions (site, collection content) forced to identity order
@@ -137,7 +139,7 @@ func (e *execState) permStrings(site string, in []string) []string {
 // ---------------------------------------------------------------- simulated file source
 
 type memSource struct {
-	mu        sync.Mutex // the code under test may read files from several goroutines
+	mu        sync.Mutex        // the code under test may read files from several goroutines
 	generated map[string]string // committed generator outputs (path -> text), listed when non-nil
 	prog      *Program
 	ex        *execState
@@ -268,38 +270,102 @@ type Violation struct {
 func (v *Violation) Key() string { return v.Class + "/" + v.Form }
 
 func compileOutputs(ctx context.Context, ps *protobuild.PackageSet, pkg string) (outs []FileOut, err error, panicked string) {
+	outs, _, err, panicked = compileOutputsH(ctx, ps, pkg, 0)
+	return
+}
+
+// compileOutputsH compiles and then examines the returned files the way the
+// handling word says. What a caller does with the files it got back
+// (serialise first or print first, in which order, once or twice) must not
+// change what it sees.
+func compileOutputsH(ctx context.Context, ps *protobuild.PackageSet, pkg string, h uint64) (outs []FileOut, files linker.Files, err error, panicked string) {
 	defer func() {
 		if r := recover(); r != nil {
 			panicked = fmt.Sprintf("%v\n%s", r, debug.Stack())
 		}
 	}()
-	files, err := ps.CompilePackage(ctx, pkg)
+	files, err = ps.CompilePackage(ctx, pkg)
 	if err != nil {
-		return nil, err, ""
+		return nil, nil, err, ""
 	}
-	for _, f := range files {
+	outs, err = examineFiles(ctx, files, h)
+	return outs, files, err, ""
+}
+
+type handlingError struct{ detail string }
+
+func (e *handlingError) Error() string { return e.detail }
+
+func examineFiles(ctx context.Context, files linker.Files, h uint64) ([]FileOut, error) {
+	outs := make([]FileOut, len(files))
+	order := make([]int, len(files))
+	for i := range order {
+		order[i] = i
+	}
+	if h != 0 && len(files) > 1 {
+		rng := simrt.NewRng(simrt.Derive(h, 0x0a7, uint64(len(files))))
+		order = rng.Perm(len(files))
+	}
+	one := func(f linker.File, printFirst bool) (FileOut, error) {
+		fo := FileOut{Path: f.Path()}
+		doPrint := func() error {
+			if strings.HasSuffix(f.Path(), ".j5s.proto") {
+				// what `j5 genproto` writes: printing must succeed
+				text, err := protoprint.PrintFile(ctx, f, "")
+				if err != nil {
+					return fmt.Errorf("print %s: %w", f.Path(), err)
+				}
+				fo.Text = text
+			} else {
+				// hand-written files are printable too (the property speaks of printed .proto text in
+				// general; custom options are dynamic messages there). A file the printer cannot handle
+				// is recorded as such - that, too, must not vary.
+				fo.Text = printLenient(ctx, f)
+			}
+			return nil
+		}
+		if printFirst {
+			if err := doPrint(); err != nil {
+				return fo, err
+			}
+		}
 		fdp := protodesc.ToFileDescriptorProto(f)
 		b, err := proto.MarshalOptions{Deterministic: true}.Marshal(fdp)
 		if err != nil {
-			return nil, fmt.Errorf("marshal %s: %w", f.Path(), err), ""
+			return fo, fmt.Errorf("marshal %s: %w", f.Path(), err)
 		}
-		fo := FileOut{Path: f.Path(), Desc: b}
-		if strings.HasSuffix(f.Path(), ".j5s.proto") {
-			// what `j5 genproto` writes: printing must succeed
-			text, err := protoprint.PrintFile(ctx, f, "")
-			if err != nil {
-				return nil, fmt.Errorf("print %s: %w", f.Path(), err), ""
+		fo.Desc = b
+		if !printFirst {
+			if err := doPrint(); err != nil {
+				return fo, err
 			}
-			fo.Text = text
-		} else {
-			// hand-written files are printable too (the property speaks of printed .proto text in
-			// general; custom options are dynamic messages there). A file the printer cannot handle
-			// is recorded as such - that, too, must not vary.
-			fo.Text = printLenient(ctx, f)
 		}
-		outs = append(outs, fo)
+		return fo, nil
 	}
-	return outs, nil, ""
+	for _, i := range order {
+		fo, err := one(files[i], h&1 != 0)
+		if err != nil {
+			return nil, err
+		}
+		outs[i] = fo
+	}
+	if h&2 != 0 {
+		// a second look at the same returned files, the other way round
+		for k := len(order) - 1; k >= 0; k-- {
+			i := order[k]
+			fo, err := one(files[i], h&1 == 0)
+			if err != nil {
+				return nil, &handlingError{"second examination of the returned files: " + err.Error()}
+			}
+			if string(fo.Desc) != string(outs[i].Desc) {
+				return nil, &handlingError{fmt.Sprintf("%s: descriptor changed between two examinations of the same returned file: %s", fo.Path, descDiff(outs[i].Desc, fo.Desc))}
+			}
+			if fo.Text != outs[i].Text {
+				return nil, &handlingError{fmt.Sprintf("%s: printed text changed between two prints of the same returned file: %s", fo.Path, firstDiff(outs[i].Text, fo.Text))}
+			}
+		}
+	}
+	return outs, nil
 }
 
 func printLenient(ctx context.Context, f protoreflect.FileDescriptor) (text string) {
@@ -477,6 +543,13 @@ func runExec(p *Program, ref Reference, cfg ExecCfg, stats *Stats) (*Violation, 
 		return s, nil
 	}
 	compiledOn := map[int]int{}
+	type heldOut struct {
+		i     int
+		op    Op
+		s     *psState
+		files linker.Files
+	}
+	var held []heldOut
 	for i, op := range cfg.Ops {
 		if op.Kind == "new_ps" {
 			delete(sets, op.PS)
@@ -497,7 +570,14 @@ func runExec(p *Program, ref Reference, cfg ExecCfg, stats *Stats) (*Violation, 
 					stats.Probes["compile_after_failed_op"]++
 				}
 			}
-			outs, err, pan := compileOutputs(ctx, s.ps, op.Pkg)
+			var hh uint64
+			if cfg.OutHandling != 0 {
+				hh = simrt.Derive(cfg.OutHandling, uint64(i))&^7 | cfg.OutHandling&7
+				if stats != nil {
+					stats.Probes["compiles_with_seeded_output_handling"]++
+				}
+			}
+			outs, files, err, pan := compileOutputsH(ctx, s.ps, op.Pkg, hh)
 			if s.src.faultSeen {
 				s.faulty = true
 			}
@@ -528,7 +608,13 @@ func runExec(p *Program, ref Reference, cfg ExecCfg, stats *Stats) (*Violation, 
 					}
 					continue
 				}
+				if he, ok := err.(*handlingError); ok {
+					return &Violation{Class: "output_differs", Form: "reexamined", OpIndex: i, Op: op.String(), Pkg: op.Pkg, Detail: he.detail}, ex
+				}
 				return &Violation{Class: "order_dependent_error", OpIndex: i, Op: op.String(), Pkg: op.Pkg, Detail: err.Error()}, ex
+			}
+			if cfg.OutHandling&4 != 0 && !s.faulty && !s.linted {
+				held = append(held, heldOut{i, op, s, files})
 			}
 			if form, file, detail := compareOutputs(ref[op.Pkg], outs); form != "" {
 				return &Violation{Class: "output_differs", Form: form, OpIndex: i, Op: op.String(), Pkg: op.Pkg, File: file, Detail: detail}, ex
@@ -597,6 +683,33 @@ func runExec(p *Program, ref Reference, cfg ExecCfg, stats *Stats) (*Violation, 
 		}
 		if s.src.faultSeen {
 			s.faulty = true
+		}
+	}
+	// results a caller kept: later calls on the same set (or anything else in the process) must not
+	// have changed them
+	for _, h := range held {
+		if h.s.faulty || h.s.linted {
+			continue
+		}
+		var outs []FileOut
+		var err error
+		pan := ""
+		func() {
+			defer func() {
+				if r := recover(); r != nil {
+					pan = fmt.Sprintf("%v", r)
+				}
+			}()
+			outs, err = examineFiles(ctx, h.files, 0)
+		}()
+		if stats != nil {
+			stats.Probes["held_results_reexamined"]++
+		}
+		if pan != "" || err != nil {
+			return &Violation{Class: "output_differs", Form: "held_result", OpIndex: h.i, Op: h.op.String(), Pkg: h.op.Pkg, Detail: fmt.Sprintf("a result that was fine when returned can no longer be examined at the end of the history: %v %s", err, firstLine(pan))}, ex
+		}
+		if form, file, detail := compareOutputs(ref[h.op.Pkg], outs); form != "" {
+			return &Violation{Class: "output_differs", Form: "held_result_" + form, OpIndex: h.i, Op: h.op.String(), Pkg: h.op.Pkg, File: file, Detail: "a result that was correct when returned differs at the end of the history: " + detail}, ex
 		}
 	}
 	return nil, ex
@@ -681,5 +794,8 @@ func genExecCfg(p *Program, seed uint64) ExecCfg {
 	cfg.RealReader = rng.Bool(0.2)
 	cfg.ListGenerated = !cfg.RealReader && rng.Bool(0.2)
 	cfg.Ops = genOps(p, cfg.Mode, rng)
+	if rng.Bool(0.4) {
+		cfg.OutHandling = rng.Uint64() | 8
+	}
 	return cfg
 }
